@@ -7,7 +7,9 @@ Correspondence: generated workspaces + histories run against the real `grog` bin
 Oracle (no model): a real from-scratch build (fresh cache root, fresh checkout of the sources at that point) must give the
                same bytes at every declared output of the selected targets as the incremental build did.
 """
+import os
 from checks import _hist as H
+from checks import _hist2 as H2
 
 PROPERTY = "C01"
 LEVEL = "proof"
@@ -65,6 +67,10 @@ ASSUMPTIONS = [
 FAMILIES_QUICK = [("edits", 3), ("alias", 2), ("shift", 2), ("tamper", 3), ("dirs", 4), ("swap", 3), ("shared", 3), ("wipe", 2), ("links", 3), ("revert", 4), ("taint", 2), ("disabled", 2), ("nocache", 2)]
 FAMILIES_THOROUGH = [(f, n * 18) for f, n in FAMILIES_QUICK]
 
+# round-c families (generators in _hist2.py)
+FAMILIES2_QUICK = [("platform", 4, {}), ("samestamp", 1, {}), ("swapdep", 1, {})]
+GEN2 = {"platform": H2.gen_platform, "samestamp": H2.gen_samestamp, "swapdep": H2.gen_swapdep}
+
 
 def signature_of(h):
     tags = [t for t in h.get("tags", [])]
@@ -74,7 +80,7 @@ def signature_of(h):
 def run(ctx):
     quick = ctx.tier == "quick"
     hists = []
-    for fam, n in (FAMILIES_QUICK if quick else FAMILIES_THOROUGH):
+    for fam, n in ([] if os.environ.get("VERIF_DEV_ONLY_NEW") else FAMILIES_QUICK if quick else FAMILIES_THOROUGH):
         for _ in range(n):
             hists.append(H.gen_history(ctx.rng, fam, nsteps=None if quick else ctx.rng.randint(3, 7)))
     for _ in range(2 if quick else 20):
@@ -82,9 +88,16 @@ def run(ctx):
         hists.append(H.gen_swap(ctx.rng, nocache=False))
         hists.append(H.gen_globout(ctx.rng))
         hists.append(H.gen_samerel(ctx.rng))
+    for fam, n, kw in FAMILIES2_QUICK:
+        for _ in range(n if quick else n * 15):
+            hists.append(GEN2[fam](ctx.rng, **kw))
     ctx.coverage["rule"] = ("layered DAGs of 2-6 targets (file/dir outputs, aliases incl. chains, globs with excludes, 1-2 targets per package), "
                             "histories of 2-5 edit/tamper/taint steps each followed by a build with a random selection; families: "
                             + ", ".join("%s x%d" % f for f in (FAMILIES_QUICK if quick else FAMILIES_THOROUGH)) +
+                            ", " + ", ".join("%s x%d" % (f, n) for f, n, _ in FAMILIES2_QUICK) + " (platform = builds with --platform os/arch switching between two platforms "
+                            "over one cache, about half of the commands read $GROG_OS/$GROG_ARCH, some targets tagged multiplatform-cache / with a platforms selector; "
+                            "samestamp = every file carries the same mtime after every edit, most edits keep the file length; swapdep = outputs of a splitter exchange "
+                            "their contents, with dependants)"
                             ", output-swap (cached and no-cache dependency) and glob-matches-dependency-output (oracle only); swap = splitter targets whose two "
                             "outputs swap contents, shared = two targets of one package sharing one glob (one excluding the first match), dirs = directory "
                             "outputs (files, sub-directory, symlink, one entry per input) growing/shrinking with the inputs and tampered in place; "
@@ -102,7 +115,7 @@ def run(ctx):
     # --- oracle: real clean build -----------------------------------------------------------------
     n_oracle = n_fail = 0
     for r in recs:
-        deep = set(r["hist"].get("tags", [])) & {"dirs", "swap", "shared", "tamper", "revert", "disabled", "links"}
+        deep = set(r["hist"].get("tags", [])) & {"dirs", "swap", "shared", "tamper", "revert", "disabled", "links", "platform", "samestamp", "swapdep"}
         which = "all" if (r["diffs"] or not quick or deep) else "last"
         fails, n = H.clean_oracle(ctx, r["hist"], r["real"], "c01clean", which=which)
         n_oracle += n
